@@ -140,6 +140,20 @@ Theorem C17_child_transparent_functions : forall s c d n,
   /\ collect_functions (fst (create_child s c)) d n = collect_functions s d n.
 Proof. exact (fun s c d n => conj (child_transparent_functions s c n) (child_keeps_others_functions s c d n)). Qed.
 
+(* `def` through a fresh child: the registered definition is the child's nearest layer for its own name (and, when
+   exclusive, the only one); every other name through the child, and EVERY name through every context built over the
+   old store, is offered as before; no variable of any plain context changes *)
+Theorem C17_child_register : forall s c f ex, good (length s) c ->
+  let s1 := fst (create_child s c) in
+  let ch := snd (create_child s c) in
+  let s2 := fst (register s1 ch f ex) in
+  (forall n, rstrip_us n = fst f ->
+     collect_functions s2 ch n = [f] :: (if ex then [] else collect_functions s c n))
+  /\ (forall n, rstrip_us n <> fst f -> collect_functions s2 ch n = collect_functions s c n)
+  /\ (forall d n, good (length s) d -> collect_functions s2 d n = collect_functions s d n)
+  /\ (forall p, pdata (sget s2 p) = pdata (sget s p)).
+Proof. exact child_register. Qed.
+
 (* the premise of C17_child_shadow holds for every context of every reachable state *)
 Theorem C17_history_good : forall ops,
   Forall (good (length (st (run_state init_state ops)))) (env (run_state init_state ops)).
@@ -154,8 +168,17 @@ Example C17_child_example :
   g 3 [120%Z] = Some 9%Z /\ g 3 [121%Z] = Some 2%Z /\ g 2 [120%Z] = Some 1%Z /\ g 0 [120%Z] = Some 1%Z.
 Proof. vm_compute. repeat split. Qed.
 
+Example C17_child_register_example :
+  let f k : fdef := ([102%Z], k) in
+  let ops := [ONewPlain None; OReg 0 (f 1%Z) false; OChild 0; OReg 1 (f 2%Z) false; OChild 0; OReg 2 (f 3%Z) true] in
+  let x := run_state init_state ops in
+  let g i := collect_functions (st x) (nth i (env x) (CPlain 0 None)) [102%Z] in
+  g 1 = [[f 2%Z]; [f 1%Z]] /\ g 2 = [[f 3%Z]] /\ g 0 = [[f 1%Z]].
+Proof. vm_compute. repeat split. Qed.
+
 Print Assumptions C17_child_transparent.
 Print Assumptions C17_child_shadow.
+Print Assumptions C17_child_register.
 Print Assumptions C17_child_transparent_functions.
 Print Assumptions C17_history_good.
 
